@@ -196,6 +196,17 @@ def refused_ok(path, spec):
 PATHS = ("compile", "ast", "func", "import")
 
 
+def _py_number(a):
+    """The Python number a numpy scalar stands for (longdouble.item() is a longdouble again)."""
+    import numpy as np
+    v = a.item()
+    if isinstance(v, np.complexfloating):
+        return complex(v)
+    if isinstance(v, np.floating):
+        return float(v)
+    return v
+
+
 def _close(a, b):
     """Exact for ints / Fractions / bools; float results (they only arise from int / int and
     negative powers) may differ by re-association of an n-ary sum/product: 1e-9 relative."""
@@ -204,9 +215,9 @@ def _close(a, b):
     import numpy as np
     # a numpy scalar stands for the Python number of its kind (generated code holds literals)
     if isinstance(a, np.generic):
-        a = a.item()
+        a = _py_number(a)
     if isinstance(b, np.generic):
-        b = b.item()
+        b = _py_number(b)
     if isinstance(a, (tuple, list)) and type(a) is type(b) and len(a) == len(b):
         return all(_close(x, y) for x, y in zip(a, b))
     if isinstance(a, float) or isinstance(b, float):
@@ -502,7 +513,8 @@ class C13(Check):
         # refuses negative integer powers, answers nan instead of complex and inf instead of
         # ZeroDivisionError -- generated code holds Python literals)
         for c in (("np", "float64", -1.5), ("np", "int64", -2), ("np", "float32", 0.5),
-                  ("np", "int8", 3), ("np", "bool", True)):
+                  ("np", "int8", 3), ("np", "bool", True), ("np", "float16", 0.5),
+                  ("np", "longdouble", 1.5)):       # (longdouble.item() is a longdouble again)
             for t in (c, ("Product", T(c, x)), ("Sum", T(x, c)), ("Sum", T(c, ("Product", T(c, x)))),
                       ("Call", V("f"), T(c, x)), ("Subscript", V("arr"), c),
                       ("Comparison", c, ("str", "<"), x), ("If", ("Comparison", x, ("str", "<"), c),
